@@ -51,11 +51,35 @@ def effective(enc, cfg):
     return eff
 
 
+DECODER_ONLY = {
+    # an encoder of a dialect built with decoder= and no grammar=: it keeps its own
+    # grammar (only PVLEncoder documents that it takes the decoder's)
+    "ISIS": ["PVLDecoder()", "OmniDecoder()", "PVLDecoder(real_cls=Decimal)"],
+    "ODL": ["OmniDecoder(grammar=OmniGrammar())", "ODLDecoder()", "PDSLabelDecoder()"],
+    "PDS3": ["OmniDecoder(grammar=OmniGrammar())", "PDSLabelDecoder()", "ODLDecoder()"],
+}
+
+
+def build_encoder(case):
+    enc, cfg = case["enc"], case["cfg"]
+    k = case.get("dec")
+    if k is None or enc not in DECODER_ONLY:
+        return make_encoder(enc, **cfg)
+    import pvl.decoder as D
+    import pvl.grammar as G
+    from decimal import Decimal
+    ns = dict(vars(D))
+    ns.update(vars(G))
+    ns["Decimal"] = Decimal
+    dec = eval(DECODER_ONLY[enc][k % 3], ns)
+    return type(make_encoder(enc))(decoder=dec, **cfg)
+
+
 def run_case(case):
     enc, cfg = case["enc"], case["cfg"]
     try:
         m = gv.build_module(case["spec"])
-        text = make_encoder(enc, **cfg).encode(m)
+        text = build_encoder(case).encode(m)
     except (ValueError, TypeError) as e:
         return ("refused", type(e).__name__)
     except Exception as e:
@@ -84,9 +108,10 @@ def random_cases(acc, enc, n, seed):
     @settings(max_examples=n, database=None, deadline=None,
               phases=[Phase.generate],
               suppress_health_check=list(HealthCheck))
-    @given(st.sampled_from(order).flatmap(c01.cases))
-    def body(case):
+    @given(st.sampled_from(order).flatmap(c01.cases), st.sampled_from([None] * 5 + [0, 1, 2]))
+    def body(case, dec):
         enc = case["enc"]
+        case = dict(case, dec=dec if enc in DECODER_ONLY else None)
         if acc.expired():
             acc.notes["budget_exhausted"] = 1
             return
